@@ -20,7 +20,7 @@ use crate::prng::Rng;
 
 pub struct ThreadsWorld;
 
-pub const KINDS: &[&str] = &["call", "post", "poll", "freeze", "badcall"];
+pub const KINDS: &[&str] = &["call", "post", "poll", "freeze", "badcall", "churn"];
 
 const MAX_THREADS: usize = 6;
 /// Per-thread cap on hook events (a thread makes at most 8 calls of at most
@@ -53,6 +53,8 @@ enum Pending {
     Start,
     Load { addr: usize, order: Ordering, init: u64 },
     Store { addr: usize, val: u64, order: Ordering },
+    /// Atomic read-modify-write: add `delta` (two's complement) to the latest value.
+    Rmw { addr: usize, delta: u64, init: u64 },
     Lock { addr: usize },
     TryLock { addr: usize },
     Unlock { addr: usize },
@@ -306,6 +308,19 @@ impl Core {
                 self.threads[tid].events.push(Ev::Store { loc: l, val });
                 0
             }
+            Pending::Rmw { addr, delta, init } => {
+                // An RMW reads the latest message in modification order and appends
+                // its own right after it (atomicity); relaxed, so no view transfer.
+                let l = self.loc(addr, init);
+                let last = self.msgs[l].len() - 1;
+                let old = self.msgs[l][last].val;
+                let new = old.wrapping_add(delta);
+                self.threads[tid].view[l] = last + 1;
+                self.msgs[l].push(Msg { val: new, view: None });
+                self.threads[tid].events.push(Ev::Load { loc: l, val: old, ts: last, latest: true });
+                self.threads[tid].events.push(Ev::Store { loc: l, val: new });
+                old
+            }
             Pending::Lock { addr } | Pending::TryLock { addr } => {
                 let blocking = matches!(p, Pending::Lock { .. });
                 let free = self.mutex_owner.get(&addr).copied().flatten().is_none();
@@ -444,11 +459,38 @@ impl SyncHooks for Hooks {
     }
 }
 
+impl owning_iovec::verif::CounterHooks for Hooks {
+    fn active(&self) -> bool {
+        TID.with(|t| t.get()) != usize::MAX && !std::thread::panicking() && COUNTERS_ON.load(Ordering::Relaxed)
+    }
+    fn load(&self, addr: usize, real: &std::sync::atomic::AtomicUsize) -> usize {
+        let tid = TID.with(|t| t.get());
+        step(tid, Pending::Load { addr, order: Ordering::Relaxed, init: real.load(Ordering::Relaxed) as u64 }) as usize
+    }
+    fn store(&self, addr: usize, real: &std::sync::atomic::AtomicUsize, value: usize) {
+        let tid = TID.with(|t| t.get());
+        step(tid, Pending::Store { addr, val: value as u64, order: Ordering::Relaxed });
+        real.store(value, Ordering::Relaxed);
+    }
+    fn fetch_add(&self, addr: usize, real: &std::sync::atomic::AtomicUsize, delta: isize) -> usize {
+        let tid = TID.with(|t| t.get());
+        let old = step(tid, Pending::Rmw { addr, delta: delta as i64 as u64, init: real.load(Ordering::Relaxed) as u64 });
+        real.store((old as usize).wrapping_add(delta as usize), Ordering::Relaxed);
+        old as usize
+    }
+}
+
+/// The counter seam is only switched on inside the `chunkthreads` world.
+static COUNTERS_ON: std::sync::atomic::AtomicBool = std::sync::atomic::AtomicBool::new(false);
+
 pub static HOOKS: Hooks = Hooks;
 
 pub fn register_hooks() {
     static ONCE: std::sync::Once = std::sync::Once::new();
-    ONCE.call_once(|| vouched_time::verif_seams::register_sync_hooks(&HOOKS));
+    ONCE.call_once(|| {
+        vouched_time::verif_seams::register_sync_hooks(&HOOKS);
+        owning_iovec::verif::register_counter_hooks(&HOOKS);
+    });
 }
 
 const NFS_FILES_N: usize = 3;
@@ -543,6 +585,31 @@ fn thread_body(tid: usize, abt: &AtomicBaseTime, program: Vec<Op>) {
                     let ev = g.threads[tid].events.len();
                     let gstep = g.gstep;
                     g.notes.push(Note::CallEnd { tid, kind, base, voucher_ok, flag, ev, gstep });
+                }
+                "churn" => {
+                    // An unrelated iovec of this thread's own: arena chunks are created
+                    // and released, which touches the process-wide live-chunk counters.
+                    let size = 1 + (op.a[1] % 200) as usize;
+                    let mut iov: owning_iovec::OwningIovec<'static> = owning_iovec::OwningIovec::new();
+                    iov.push_copy(&vec![tid as u8 + 1; size]);
+                    match op.a[2] % 4 {
+                        0 => {}
+                        1 => {
+                            let c = iov.clone();
+                            drop(iov);
+                            iov = c;
+                        }
+                        2 => {
+                            let t = iov.take();
+                            iov.push_copy(&[7u8; 5]);
+                            drop(t);
+                        }
+                        _ => {
+                            iov.arena().flush_cache();
+                            iov.push_copy(&[9u8; 70]);
+                        }
+                    }
+                    drop(iov);
                 }
                 "badcall" => {
                     // Caller error: an update whose voucher does not match.  The
@@ -1495,5 +1562,115 @@ impl World for NfsThreadsWorld {
         let _ = std::fs::remove_dir_all(&fx.dir);
         log.u64(violations.len() as u64);
         Outcome { violations, log_hash: log.0, nontrivial: active >= 2 && total_events >= 12 }
+    }
+}
+
+
+// ---------------------------------------------------------------------------
+// World `chunkthreads`: several simulated threads, each with its own unrelated
+// iovecs, create and release arena chunks while the scheduler interleaves every
+// access to the process-wide live-chunk counters (hook H1 counter seam).  Once
+// all threads are done the counters must be back at the run's baseline.
+// Serves the "counters return to what they were" half of C10 for concurrent
+// histories.
+// ---------------------------------------------------------------------------
+
+pub struct ChunkThreadsWorld;
+
+impl World for ChunkThreadsWorld {
+    fn name(&self) -> &'static str {
+        "chunkthreads"
+    }
+    fn kinds(&self) -> &'static [&'static str] {
+        KINDS
+    }
+    fn serves(&self) -> &'static [&'static str] {
+        &["C10"]
+    }
+    fn runs(&self, ask: Ask) -> u64 {
+        if ask.thorough {
+            1_000_000
+        } else {
+            40_000
+        }
+    }
+    fn components(&self) -> (Vec<&'static str>, Vec<&'static str>) {
+        (
+            vec!["owning_iovec (chunk creation and release from several threads: Chunk::new, Drop for Chunk, the live-chunk counters)"],
+            vec!["value storage of NUM_LIVE_CHUNKS / NUM_LIVE_BYTES (hook H1 counter seam: messages held by the simulator)", "the OS scheduler (baton scheduler)"],
+        )
+    }
+    fn rule(&self) -> &'static str {
+        "one run = 2-3 simulated threads x 1-3 create/clone/take/flush/drop histories on their own iovecs, interleaved at every counter access under a drawn scheduling policy and memory mode; non-trivial = at least 2 threads touched the counters; distinct = distinct (mode, operation-kind sequence) x policy"
+    }
+    fn generate(&self, seed: u64, index: u64, _ask: Ask) -> Plan {
+        let mut rng = Rng::new(crate::prng::mix(&[seed, 0xc4c4, index]));
+        let mut knobs = std::collections::BTreeMap::new();
+        knobs.insert("sched_seed".into(), rng.next() >> 1);
+        knobs.insert("sc".into(), rng.chance(1, 2) as u64);
+        let policy = rng.below(5);
+        knobs.insert("policy".into(), policy);
+        if policy == 1 {
+            knobs.insert("pct_d".into(), rng.range(1, 3));
+        }
+        let n = rng.range(2, 3);
+        knobs.insert("threads".into(), n);
+        let mut ops = Vec::new();
+        for t in 0..n {
+            for _ in 0..rng.range(1, 3) {
+                ops.push(Op::new("churn", [t, rng.below(200), rng.below(4), 0]));
+            }
+        }
+        Plan { world: "chunkthreads", mode: if knobs["sc"] != 0 { "sc".into() } else { "mm".into() }, seed, index, knobs, ops }
+    }
+    fn execute(&self, plan: &Plan, stats: &mut Stats) -> Outcome {
+        let mut log = LogHash::new();
+        let base = (owning_iovec::ByteArena::num_live_chunks(), owning_iovec::ByteArena::num_live_bytes());
+        COUNTERS_ON.store(true, Ordering::Relaxed);
+        let r = run_plan(plan);
+        COUNTERS_ON.store(false, Ordering::Relaxed);
+        let now = (owning_iovec::ByteArena::num_live_chunks(), owning_iovec::ByteArena::num_live_bytes());
+        let mut violations = Vec::new();
+        for n in &r.notes {
+            if let Note::Panic { tid, msg } = n {
+                push_v(&mut violations, "C10", "C10.panic", format!("thread {} panicked while creating or releasing chunks: {}", tid, msg));
+            }
+        }
+        if now != base {
+            push_v(&mut violations, "C10", "C10.counters_after_concurrent_drops", format!("after every thread dropped everything: live chunks/bytes {:?}, baseline {:?}", now, base));
+        }
+        let mut active = 0;
+        let mut total = 0usize;
+        for (i, t) in r.threads.iter().enumerate() {
+            log.u64(i as u64);
+            for e in &t.1 {
+                match e {
+                    Ev::Load { loc, ts, .. } => {
+                        log.u64(1 + *loc as u64 * 8);
+                        log.u64(*ts as u64);
+                    }
+                    Ev::Store { loc, .. } => log.u64(2 + *loc as u64 * 8),
+                    _ => {}
+                }
+            }
+            total += t.1.len();
+            if !t.1.is_empty() {
+                active += 1;
+            }
+        }
+        stats.ops_executed += total as u64;
+        stats.add("probe.thread_handoffs", r.handoffs);
+        stats.add("probe.stale_reads_served", r.stale_reads);
+        let mut sig = LogHash::new();
+        sig.u64(plan.knob("policy"));
+        sig.u64(plan.knob("sc"));
+        sig.u64(r.handoffs.min(40));
+        for t in &r.threads {
+            sig.u64(t.1.len().min(40) as u64);
+        }
+        stats.state(sig.0);
+        log.u64(violations.len() as u64);
+        // Leave the process-wide counters consistent for the next run of this worker.
+        Outcome { violations, log_hash: log.0, nontrivial: active >= 2 }
     }
 }
